@@ -48,6 +48,8 @@ def drive(sh, prop, cfg, klass, requests=('hit', 'hit2', '404', '405'), shape_on
         sh.hit('requests-on-accepted', info.get('exchanges', 0))
         if cfg.get('build_via_add'):
             sh.hit('accepted-with:built-via-add')
+        if cfg['route'].get('siblings'):
+            sh.hit('sibling-routes-with-own-middlewares')
         if cfg['route'].get('decoys'):
             sh.hit('decoy-routes-passed-over')
         if any(l.get('prefix_bindings') for l in cfg['levels']):
